@@ -141,3 +141,123 @@ func containsT(ts []int64, t int64) bool {
 }
 
 var _ = time.Second
+
+// matches reports whether an outcome matches any of the conditions (C12 reference, see classify.go).
+func matchesAny(cs []Cond, v int, err error) bool {
+	for _, c := range cs {
+		if condMatches(c, v, err) {
+			return true
+		}
+	}
+	return false
+}
+
+// checkHedgeLayer: C09.
+func (env *Env) checkHedgeLayer(layer int, apps []*App) string {
+	s := env.Stack[layer]
+	D := int64(s.HDelay)
+	cancellable := func(r *common.PolicyResult[int]) bool {
+		if r == nil {
+			return false
+		}
+		if len(s.Cancel) == 0 {
+			return true
+		}
+		return matchesAny(s.Cancel, r.Result, r.Error)
+	}
+	for _, a := range apps {
+		t0 := a.In.T
+		if a.Started > s.MaxHedges+1 {
+			return fmt.Sprintf("hedge started %d attempts, maxHedges is %d", a.Started, s.MaxHedges)
+		}
+		for j, at := range a.StartTimes {
+			if at < t0+int64(j+1)*D {
+				return fmt.Sprintf("hedge %d started at t=%d, before %d hedge delays (%d) had elapsed since t=%d", j+1, at, j+1, D, t0)
+			}
+		}
+		if a.Out == nil {
+			if env.Completed {
+				return "hedge application never returned"
+			}
+			continue
+		}
+		out := a.Out.Res
+		canceledOutside := env.hasCancelSourceAbove(layer) && a.In.Exec.IsCanceled()
+		// which attempts had finished when the hedge returned, and the earliest cancellable one
+		var winner *App
+		finished := 0
+		firstCancellable := int64(-1)
+		for _, c := range a.Children {
+			if c.Out != nil && c.Out.Seq < a.Out.Seq {
+				finished++
+				if cancellable(c.Out.Res) && (firstCancellable == -1 || c.Out.T < firstCancellable) {
+					firstCancellable = c.Out.T
+				}
+				if c.Out.Res == out {
+					winner = c
+				}
+			}
+		}
+		if canceledOutside {
+			continue // the result is the outer cancellation's (C08)
+		}
+		if winner == nil {
+			return fmt.Sprintf("hedge returned %s, which none of its finished attempts produced", resStr(out))
+		}
+		// no attempt may start at an instant strictly later than a cancellable result
+		if firstCancellable >= 0 {
+			for j, at := range a.StartTimes {
+				if at > firstCancellable {
+					return fmt.Sprintf("hedge %d started at t=%d, after a cancellable result was produced at t=%d", j+1, at, firstCancellable)
+				}
+			}
+			if !cancellable(out) {
+				// Results produced at the same virtual instant are unordered (interpretation rule 11): a
+				// final non-matching result may win against a matching one produced at that very instant.
+				if firstCancellable < winner.Out.T {
+					return fmt.Sprintf("hedge returned %s (produced at t=%d) although an attempt had produced a result matching the cancel conditions at t=%d", resStr(out), winner.Out.T, firstCancellable)
+				}
+				if a.Started != s.MaxHedges+1 || finished != s.MaxHedges+1 {
+					return fmt.Sprintf("hedge returned a non-cancellable result %s with %d of %d attempts started and %d finished", resStr(out), a.Started, s.MaxHedges+1, finished)
+				}
+			} else if a.Out.T != firstCancellable {
+				return fmt.Sprintf("a cancellable result was produced at t=%d but the hedge returned at t=%d", firstCancellable, a.Out.T)
+			}
+		} else {
+			if a.Started != s.MaxHedges+1 || finished != s.MaxHedges+1 {
+				return fmt.Sprintf("hedge returned a non-cancellable result %s with %d of %d attempts started and %d finished", resStr(out), a.Started, s.MaxHedges+1, finished)
+			}
+		}
+		// losers cancelled, winner not (sampled by the probe at the moment the hedge returned)
+		for j, c := range a.Children {
+			st, ok := env.CancelAtReturn[c.In]
+			if !ok {
+				continue
+			}
+			if c == winner && st && !env.hasCancelSourceAbove(layer) {
+				return fmt.Sprintf("the winning attempt %d was cancelled when the hedge returned", j)
+			}
+			if c != winner && !st {
+				return fmt.Sprintf("attempt %d was not cancelled when the hedge returned with attempt %d's result", j, winner.N)
+			}
+		}
+		if env.ProbeStats && !env.hasHedgeOrRetryElsewhere(layer) {
+			if a.Out.Hedges != a.Started-1 {
+				return fmt.Sprintf("Hedges()=%d after %d hedges were started", a.Out.Hedges, a.Started-1)
+			}
+			if a.Out.Attempts != a.Started {
+				return fmt.Sprintf("Attempts()=%d after %d attempts were started", a.Out.Attempts, a.Started)
+			}
+		}
+	}
+	return ""
+}
+
+func (env *Env) hasHedgeOrRetryElsewhere(layer int) bool {
+	for j, s := range env.Stack {
+		if j != layer && (s.Kind == KHedge || s.Kind == KRetry) {
+			return true
+		}
+	}
+	return false
+}
